@@ -1178,15 +1178,47 @@ def c09_gen(rng):
         if g is not None:
             g.metadata = gen.gen_metadata(rng)
             gs.append(j_graph(g))
-    return {'graphs': gs, 'indent': rng.choice([None, -1, 2]), 'sep': rng.choice(['\n\n', '\n', ' ']),
+    case = {'graphs': gs, 'indent': rng.choice([None, -1, 2]), 'sep': rng.choice(['\n\n', '\n', ' ']),
             'nl': rng.choice(['\n', '\r\n', '\r'])}
+    if maybe(rng, 0.004):
+        # a long stream whose token count reaches 2**k exactly at a graph boundary (8 tokens per graph)
+        case['blocks'] = rng.choice([10, 12, 13, 16, 16])
+    return case
 
 
 def graph_obs(g):
     return (g.top, g.triples, {k: [repr(e) for e in v] for k, v in g.epidata.items()}, dict(g.metadata))
 
 
+def c09_blocks(k):
+    n = 2 ** k // 8 + 5
+    g = penman.decode('(a / alpha :ARG0 b)')
+    gs = []
+    for i in range(n):
+        h = copy.deepcopy(g)
+        h.metadata = {'id': str(i)}
+        gs.append(h)
+    text = penman.dumps(gs)
+    if sum(1 for _ in _lexer.lex(text)) != 8 * n:
+        return None
+    for name, f in (('loads', lambda: penman.loads(text)), ('iterdecode', lambda: list(penman.iterdecode(text))),
+                    ('iterparse', lambda: list(penman.iterparse(text))), ('load', lambda: penman.load(io.StringIO(text)))):
+        try:
+            back = f()
+        except Exception as e:  # noqa: BLE001
+            return f'{name} of a dumped stream of {n} graphs raised {type(e).__name__}: {e}'
+        if len(back) != n:
+            return f'{name} returns {len(back)} of the {n} graphs dumps wrote ({8 * n} tokens)'
+        if name == 'loads' and any(graph_obs(b) != graph_obs(h) for b, h in zip(back, gs)):
+            return f'loads(dumps(gs)) differs from gs on a stream of {n} graphs'
+    return None
+
+
 def c09_check(case):
+    if case.get('blocks'):
+        v = c09_blocks(case['blocks'])
+        if v:
+            return v
     gs = [py_graph(j) for j in case['graphs']]
     m = Model()
     gs = [g for g in gs if wf_graph(g, m) and valid_meta(g.metadata)
